@@ -318,8 +318,63 @@ def replay_rename(cases, F, mon):
 
 
 # ------------------------------------------------------------------------------ structure (C02)
+def tuple_donors(F):
+    """C01 / C15: a table built from the caller's OWN tuples (dict of tuples, list of tuples, >> dict, attribute assignment)
+    never sits on those tuples: other vectors over the same tuple stay writable, and no write leaks either way"""
+    from serif import AliasError
+    ex = 0
+    builders = {
+        "Table({name: tuple})": lambda a, b: Table({"x": a, "y": b}),
+        "Table([Vector(tuple), ..])": lambda a, b: Table([Vector(a, name="x"), Vector(b, name="y")]),
+        "Table({..}) >> {name: tuple}": lambda a, b: Table({"x": list(a)}) >> {"y": b},
+        "t.x = tuple": lambda a, b: _setattr(Table({"x": [0] * len(a), "y": list(b)}), "x", a),
+        "t.x = Vector(tuple)": lambda a, b: _setattr(Table({"x": [0] * len(a), "y": list(b)}), "x", Vector(a)),
+    }
+    for n in (1, 2, 5):
+        for bname, build in builders.items():
+            for keep in ("vector first", "table first", "two tables"):
+                a, b = tuple(range(10, 10 + n)), tuple(range(20, 20 + n))
+                case = {"built by": bname, "rows": n, "order": keep}
+                try:
+                    if keep == "vector first":
+                        va = Vector(a)
+                        t = build(a, b)
+                    elif keep == "table first":
+                        t = build(a, b)
+                        va = Vector(a)
+                    else:
+                        t = build(a, b)
+                        va = build(a, b).cols()[0]
+                except Exception as e:      # noqa: BLE001
+                    F.add("construct", case, type(e).__name__ + ": " + str(e)[:60], "a table")
+                    continue
+                ex += 1
+                col = t.cols()[0]
+                try:
+                    va[0] = 99
+                except AliasError:
+                    F.add("spurious_refusal", case, "AliasError writing a vector built over the caller's tuple (the table holds a copy)", "accepted")
+                if list(col)[0] == 99:
+                    F.add("leaked_write", case, {"table column": list(col)}, list(a))
+                try:
+                    t[0, 0] = 77
+                except AliasError:
+                    F.add("spurious_refusal", case, "AliasError writing a cell of the table", "accepted")
+                if list(va)[0] == 77:
+                    F.add("leaked_write", case, {"vector": list(va)}, "unchanged by the table write")
+                if a != tuple(range(10, 10 + n)):
+                    F.add("operands_unchanged", case, a, "the caller's tuple unchanged")
+    return ex
+
+
+def _setattr(t, name, value):
+    setattr(t, name, value)
+    return t
+
+
 def struct(out_path):
     F, mon, ex = Fails(), Monitor(), 0
+    ex += tuple_donors(F)
     cells_dom = [None, 0, 1]
     for ncols in (1, 2, 3):
         for nrows in (0, 1, 2):
@@ -464,6 +519,21 @@ ARGS = {
     "float": {"__add__": (1.0,), "__round__": (1,)},
     "date": {"replace": (), "strftime": ("%Y",), "isoformat": (), "__format__": ("",)},
 }
+# further argument lists per method ("with arbitrary arguments"): tuples of alternatives, start / end positions,
+# separators and limits, fill characters, codecs ...
+MORE_ARGS = {
+    "str": {"startswith": [(("a", "B"),), (("ap", "ca"),), ("a", 1), ("p", 1, 3), ((),)], "endswith": [(("e", "a"),), ("a", 0, 1), (("ie", "na", ""),)],
+            "count": [("a", 1), ("a", 0, 3), ("",)], "find": [("a", 1), ("a", 1, 3), ("",)], "rfind": [("a", 0, 2)], "index": [("a", 0)],
+            "split": [("a",), (None, 1), (" ", 1), ("p", -1)], "rsplit": [(" ", 1), (None, 1)], "strip": [("a",), ("ae",), (None,)],
+            "lstrip": [("a",), ("ab",)], "rstrip": [("e",), ("a e",)], "replace": [("a", "b", 1), ("", "-"), ("a", "")],
+            "center": [(9, "*"), (0,)], "ljust": [(7, "."), (0,)], "rjust": [(7, "0")], "zfill": [(0,), (12,)],
+            "encode": [("utf-8",), ("ascii", "ignore")], "expandtabs": [(2,)], "splitlines": [(True,)], "partition": [(" ",), ("pp",)],
+            "rpartition": [(" ",)], "join": [(("x", "y"),), ("",), ([],)], "removeprefix": [("apple ",), ("",)], "removesuffix": [("a",), ("pie",)],
+            "translate": [({97: None},), ({},)], "title": [()], "swapcase": [()], "casefold": [()]},
+    "int": {"to_bytes": [(8, "little"), (2, "big")], "bit_length": [()], "conjugate": [()]},
+    "float": {"hex": [()], "is_integer": [()], "as_integer_ratio": [()]},
+    "date": {"replace": [(2000,), (2001, 2, 3)], "strftime": [("%d/%m/%y",), ("",)], "isoformat": [()], "weekday": [()], "toordinal": [()]},
+}
 VALUES = {"str": ["apple pie", "Banana", "a", "", "cab a"], "int": [5, -3, 0, 1024], "float": [1.5, -2.25, 0.0, 8.0],
           "date": [date(2020, 2, 29), date(1999, 12, 31), date(2024, 1, 1)]}
 
@@ -509,6 +579,35 @@ def methods(out_path):
                     if not isinstance(r, Vector) or len(got) != len(exp) or not all(A.same_value(g, x) or g == x for g, x in zip(got, exp)):
                         F.add("broadcast", case, repr(got)[:120], repr(exp)[:120])
                         break
+    # the same broadcast with other argument lists
+    for tag, table in MORE_ARGS.items():
+        for name, arglists in table.items():
+            if name in vec_api and name not in type(Vector(list(VALUES[tag]))).__dict__:
+                continue
+            for args in arglists:
+                for size in (1, 5, 70):
+                    for nonepos in ((), (0,)):
+                        vals = [None if i in nonepos else VALUES[tag][i % len(VALUES[tag])] for i in range(size)]
+                        if all(x is None for x in vals):
+                            continue
+                        try:
+                            exp = [None if x is None else getattr(x, name)(*args) for x in vals]
+                        except Exception:       # noqa: BLE001
+                            F.skip("python rejects the canned arguments")
+                            continue
+                        v = Vector(list(vals))
+                        before = list(v)
+                        st, r, e = attempt(lambda: getattr(v, name)(*args))
+                        ex += 1
+                        case = {"type": tag, "attr": name, "args": repr(args), "size": size, "none_at": list(nonepos)}
+                        if st != "ok":
+                            F.add("broadcast", case, "raised " + type(e).__name__ + ": " + str(e)[:60], "element-wise application")
+                            continue
+                        got = list(r) if isinstance(r, Vector) else r
+                        if not isinstance(r, Vector) or len(got) != len(exp) or not all(A.same_value(g, x) or g == x for g, x in zip(got, exp)):
+                            F.add("broadcast", case, repr(got)[:120], repr(exp)[:120])
+                        if list(v) != before:
+                            F.add("operands_unchanged", case, "the vector changed", "unchanged")
     # date + days
     for size in (1, 3, 1001):
         for nonepos in ((), (0,)):
@@ -527,6 +626,16 @@ def methods(out_path):
                     F.add("broadcast", case, "raised " + type(e).__name__ + ": " + str(e)[:60], "dates shifted")
                 elif list(r) != exp:
                     F.add("broadcast", case, repr(list(r))[:100], repr(exp)[:100])
+            # arithmetic between two NAMED vectors gives an unnamed result (C18) - also for the date + days form
+            named, days = Vector(list(vals), name="start"), Vector([i % 5 for i in range(size)], name="days")
+            for label, fn in (("dates + int vector", lambda: named + days), ("dates - dates", lambda: named - Vector(list(vals), name="other")),
+                              ("dates == dates", lambda: named == Vector(list(vals), name="other")), ("dates < dates", lambda: named < Vector(list(vals), name="start"))):
+                st, r, e = attempt(fn)
+                ex += 1
+                if st == "ok" and isinstance(r, Vector) and r.name is not None:
+                    F.add("names", {"type": "date", "attr": label, "size": size}, r.name, None)
+                if named.name != "start" or days.name != "days":
+                    F.add("names", {"type": "date", "attr": label, "size": size}, [named.name, days.name], "operand names unchanged")
     json.dump({"executed": ex, "failures": F.items, "per_clause": F.per, "skipped": F.skipped, "truth": [], "rule": []},
               open(out_path, "w"), default=str)
 
